@@ -13,23 +13,15 @@ COMMON_ASSUMPTIONS = [
 import os
 VERIF = os.path.dirname(os.path.dirname(os.path.abspath(__file__)))
 
-CLAIMED = ["C01", "C02", "C03", "C09", "C16"]
+CLAIMED = ["C01", "C02", "C03", "C05", "C06", "C09", "C10", "C11", "C12", "C15", "C16", "C17", "C20"]
 NOT_APPLICABLE = {
-    "C07": "schedules / threads are not expressible in Kani/CBMC (no model of rayon's worker threads, work stealing or atomics-based deques); a sequential stub of the parallel iterator would assume the property instead of checking it",
-    "C13": "termination of Louvain's `while nb_moves > 0` / `while improvement` loops is the property; bounded model checking can only confirm a fixed unwinding, and one sweep re-enters modularity -> get_subgraph -> new_from_nodes_and_edges per community over floats, measured beyond the memory cap (three policy-dependent add_edge calls already exceed 24 GB)",
+    "C04": "the kernels dijkstra()/dijkstra_basic() keep a BinaryHeap whose order depends on the weights: with ONE symbolic weight on a constant 3-node topology CBMC's symbolic execution did not finish in 20 minutes; with constant weights a run takes 78 s but nothing is left for the solver to decide; the public wrappers (all_pairs, multi_source) additionally contain the rayon branch, whose catch_unwind intrinsic crashes kani-compiler 0.68 (harness kept unregistered in harness/dijkstra_ac.rs)",
+    "C07": "schedules / threads are not expressible in Kani/CBMC (no model of rayon's worker threads, work stealing or atomics-based deques; kani-compiler 0.68 crashes on rayon's catch_unwind intrinsic); a sequential stub of the parallel iterator would assume the property instead of checking it",
+    "C08": "same kernels as C04: target / cutoff / first_only / with_paths harnesses exist (harness/dijkstra_ac.rs) but do not finish symbolic execution with a symbolic weight; all_pairs / multi_source / get_all_shortest_paths_involving cannot be compiled by Kani (rayon branch)",
+    "C13": "termination of Louvain's `while nb_moves > 0` / `while improvement` loops is the property; bounded model checking can only confirm a fixed unwinding, and one sweep re-enters modularity -> get_subgraph -> new_from_nodes_and_edges per community over floats, measured beyond the memory cap (three add_edge calls already exceed 24 GB)",
     "C14": "the weight clause quantifies over all f64 bit patterns through Display (Grisu/Dragon) and str::parse::<f64> (Eisel-Lemire: 64x64->128 multiplications on symbolic digits) and the name clause over quick-xml's escaper on buffers whose length depends on the symbolic bytes; neither can be bit-blasted within reach and no non-circular contract stub exists",
-    "C04": "not claimed yet: harnesses under construction",
-    "C05": "not claimed yet: harnesses under construction",
-    "C06": "not claimed yet: harnesses under construction",
-    "C08": "not claimed yet: harnesses under construction",
-    "C10": "not claimed yet: harnesses under construction",
-    "C11": "not claimed yet: harnesses under construction",
-    "C12": "not claimed yet: harnesses under construction",
-    "C15": "not claimed yet: harnesses under construction",
-    "C17": "not claimed yet: harnesses under construction",
-    "C18": "not claimed yet: harnesses under construction",
-    "C19": "not claimed yet: harnesses under construction",
-    "C20": "not claimed yet: harnesses under construction",
+    "C18": "needs at least two power iterations of float division / sqrt over a HashMap<T, f64> plus powf (nondeterministic in Kani); float-equivalence queries of this size did not finish in this sandbox (two symbolic divisions on each side already exceed 25 minutes, see C06/C16); the multi-edge panic clause is covered by C20",
+    "C19": "whole-string symbolic execution of quick-xml's reader (runtime CPU-feature detection in memchr, byte-scanning loops over symbolic buffers) is out of reach, and the event loop's input-derived unwraps sit inside one monolithic function that cannot be driven without the parser",
 }
 
 def H(name, build, what, tier="quick", covers=(), **kw):
